@@ -121,7 +121,7 @@ def main():
                  "in-memory sensitivity audit (canned breaches applied to the parsed sources must each flip an obligation; fails closed) "
                  "+ mechanical mutation audit (every first-order mutant of the property's anchor files built in memory, the "
                  "property's rules run on each, counts recorded in the evidence; informational). "
-                 "known_findings.json lists the six genuine defects found and repaired by fix: commits in /repo.",
+                 "Several obligations are decided by partial evaluation of a function's syntax tree on a finite grid of abstract inputs (nesting shapes, shape lists, order types of loss histories; the checker's own evaluator over opaque tokens, nothing of the library is imported or run) - the grids are larger in the thorough tier. known_findings.json lists the seven genuine defects found and repaired by fix: commits in /repo.",
         "not_applicable": na,
     }
     json.dump(m, open(os.path.join(HERE, "MANIFEST.json"), "w"), indent=1)
